@@ -113,6 +113,12 @@ Proof. exact check_example. Qed.
 Example C19_topo_example : topo_ok ex_cells_good /\ Permutation ex_cells_good ex_cells_bad.
 Proof. exact topo_example. Qed.
 
+Example C19_order_example :
+  same_but_order (ex_nl2 ex_indep_1) (ex_nl2 ex_indep_2) /\
+  simulate (ex_nl2 ex_indep_1) [] [[[true]; [true]]; [[true]; [false]]] = RunOk [[[true; false]]; [[false; true]]] /\
+  simulate (ex_nl2 ex_indep_2) [] [[[true]; [true]]; [[true]; [false]]] = RunOk [[[true; false]]; [[false; true]]].
+Proof. exact order_example. Qed.
+
 Example C19_count_example : (5 < 2 ^ 3)%N /\ serial_count 3 5 [true; true; false; true; true] = 1%N.
 Proof. exact count_example. Qed.
 
